@@ -1174,7 +1174,10 @@ impl TensorStore {
         };
 
         let path = path.as_ref();
-        let temp_path = path.with_extension("tmp");
+        // A sibling that is never the target itself (`with_extension` maps "x.tmp" onto itself).
+        let mut temp_name = path.as_os_str().to_owned();
+        temp_name.push(".tmp");
+        let temp_path = std::path::PathBuf::from(temp_name);
 
         let keys = self.router.scan("");
         let mut entries = Vec::with_capacity(keys.len());
